@@ -15,6 +15,7 @@ NOT proved (stated precisely at the end): the lifting of this operation-level in
 import LolHtml.Thm.Full3
 import LolHtml.Lemmas.FullDisp
 import LolHtml.Lemmas.ChunkFullPanic
+import LolHtml.Thm.C11_General
 
 namespace LolHtml.Thm.Full
 open LolHtml LolHtml.Model LolHtml.Model.Full LolHtml.Model.Handlers LolHtml.EditModel LolHtml.Lemmas.Full
@@ -535,5 +536,28 @@ theorem Full_writes_agree_or_panic (cfg : Cfg) (settings : Settings) (chunks : L
   · left
     rw [← hnew, he]
   · exact Or.inr ⟨e, hG, hmem⟩
+
+
+/-- the whole model with the cleaned real controller -/
+def cleanWorld (cfg : Cfg) : World (FullSt cfg) := Chunk.R.World.withCtl (genWorld cfg) (Chunk.R.cleanCtl (fullCtl cfg))
+
+/-- **C11_bailout_general_cleaned.** `C11_bailout_general` (exact sink log at a failing `write`, for
+controllers that mutate, remove content and fail) for the cleaned real controller: every configuration,
+settings record, chunking. By `Full_writes_agree_or_panic` it describes the real controller's run as long
+as no callback returns a panic-class error. -/
+theorem C11_bailout_general_cleaned (cfg : Cfg) (settings : Settings) (chunks : List Bytes) (data : Bytes) (e : Err)
+    (hok : ∀ x ∈ (C01.writeAll (cleanWorld cfg) (C01.Rewriter.new (cleanWorld cfg) (FullSt.init cfg) settings) chunks).2,
+      x = CallRes.ok)
+    (herr : ((C01.writeAll (cleanWorld cfg) (C01.Rewriter.new (cleanWorld cfg) (FullSt.init cfg) settings) chunks).1.write
+          (cleanWorld cfg) data).2 = .err e) :
+    C11G.BailLog (cleanWorld cfg)
+      (C01.writeAll (cleanWorld cfg) (C01.Rewriter.new (cleanWorld cfg) (FullSt.init cfg) settings) chunks).1.stream
+      ((C01.writeAll (cleanWorld cfg) (C01.Rewriter.new (cleanWorld cfg) (FullSt.init cfg) settings) chunks).1.write
+        (cleanWorld cfg) data).1.stream
+      ((C01.writeAll (cleanWorld cfg) (C01.Rewriter.new (cleanWorld cfg) (FullSt.init cfg) settings) chunks).1.stream.pending ++ data) e ∧
+    ((C01.writeAll (cleanWorld cfg) (C01.Rewriter.new (cleanWorld cfg) (FullSt.init cfg) settings) chunks).1.write
+      (cleanWorld cfg) data).1.poisoned = true :=
+  C11G.C11_bailout_general (cleanWorld cfg) C15.C15_gen C15.C15_cert_gen
+    (Chunk.R.cleanCtl_clean (fullCtl cfg)) (FullSt.init cfg) settings chunks data e hok herr
 
 end LolHtml.Thm.Full
